@@ -232,18 +232,20 @@ func lockBalance(c *core.Ctx, li *core.LockInfo, rule string, fns []*ssa.Functio
 		}
 		key := core.FuncName(f) + "/lock-balance"
 		bad := ""
+		mayAll := core.LocksInMay(f, li.Entry[f])
 		core.Instrs(f, func(ins ssa.Instruction) {
 			r, ok := ins.(*ssa.Return)
 			if !ok || r.Block() == f.Recover {
 				return
 			}
-			ls := li.At[ins].Clone()
+			// "may be held": a path that skips its unlock (an early exit out of a locked region) counts
+			ls := mayAll[ins].Clone()
 			applyDefers(f, ls)
 			for k := range li.Entry[f] {
 				delete(ls, k)
 			}
 			if len(ls) > 0 {
-				bad = fmt.Sprintf("returns at %s with %s still held (no matching unlock of the same mode on this path, no deferred one): the next operation on the object blocks forever / the runtime aborts on a mismatched unlock", p.InstrPos(ins), ls)
+				bad = fmt.Sprintf("can return at %s with %s still held (a path lacks the matching unlock of the same mode and no deferred one covers it): the next operation on the object blocks forever / the runtime aborts on a mismatched unlock", p.InstrPos(ins), ls)
 			}
 		})
 		// a deferred or explicit unlock of a mode that is not held is a runtime fatal error
